@@ -104,6 +104,7 @@ type VPD struct {
 	client int
 	mu     sync.Mutex
 	Issued []uint64 // per-client issuance log
+	skewMs atomic.Int64
 }
 
 func (p *VPD) WithCallerComponent(caller.Component) pd.Client { return p }
@@ -122,6 +123,7 @@ func (p *VPD) GetTS(ctx context.Context) (int64, int64, error) {
 	}
 	ph, lo, err := p.Client.GetTS(ctx)
 	if err == nil {
+		ph += p.skewMs.Load()
 		p.log(oracle.ComposeTS(ph, lo))
 	}
 	return ph, lo, err
@@ -386,7 +388,7 @@ type Client struct {
 // Cluster is one simulated cluster with its clients.
 type Cluster struct {
 	Backend Backend
-	Clock   *Clock // nil on unistore
+	Clock   *Clock // shared virtual clock; nil on unistore
 	Trace   *Trace
 	Clients []*Client
 	mock    *mocktikv.Cluster
@@ -434,6 +436,8 @@ func NewCluster(b Backend, nStores, nClients int) (*Cluster, error) {
 		}
 		unistore.BootstrapWithSingleStore(cluster)
 		cl.uniCli, cl.uni, cl.basePD = c, cluster, pdc
+		// unistore draws min-commit timestamps from its own wall-clock TSO, so the clients must use that same
+		// source (no virtual clock); lock expiry is simulated by skewing the clients' clock forward (Expire)
 		base = &uniWrapper{c}
 	}
 	for i := 0; i < nClients; i++ {
@@ -459,6 +463,18 @@ func (cl *Cluster) Close() {
 	}
 	if cl.uniCli != nil {
 		_ = cl.uniCli.Close()
+	}
+}
+
+// Expire makes every lock written so far look expired to every client: the virtual clock advances by an
+// hour, or (unistore) every client's clock is skewed an hour ahead. On unistore no commit may follow.
+func (cl *Cluster) Expire() {
+	if cl.Clock != nil {
+		cl.Clock.Advance(time.Hour)
+		return
+	}
+	for _, c := range cl.Clients {
+		c.PD.skewMs.Add(time.Hour.Milliseconds())
 	}
 }
 
@@ -490,8 +506,9 @@ func (cl *Cluster) SplitAt(key string) {
 			}
 		}
 	case Uni:
-		r, _, _, _ := cl.uni.GetRegionByKey([]byte(key))
-		if r == nil || string(r.StartKey) == key {
+		enc := []byte(mocktikv.NewMvccKey([]byte(key))) // unistore indexes memcomparable-encoded keys as well
+		r, _, _, _ := cl.uni.GetRegionByKey(enc)
+		if r == nil || string(r.StartKey) == string(enc) {
 			return
 		}
 		newID := cl.uni.AllocID()
@@ -649,7 +666,9 @@ func (t *Truth) Describe(keys []string) string {
 	return sb.String()
 }
 
-// Drain waits until no traced RPC of any live client has been in flight for quiet.
+// Drain waits until no traced RPC of any client has been in flight for quiet (KVStore.WaitGroup also counts
+// the store's permanent loops, so it cannot be used). It returns false if max elapsed first. Checks that
+// judge "after background work has drained" poll their condition on top of this (see World.Finish).
 func (cl *Cluster) Drain(quiet, max time.Duration) bool {
 	deadline := time.Now().Add(max)
 	for time.Now().Before(deadline) {
